@@ -6,12 +6,10 @@ toolchain go1.23.5
 
 require (
 	pgregory.net/rapid v1.3.0
+	seehuhn.de/go/geom v0.0.0-20250114140758-af83eac7b27c
 	seehuhn.de/go/postscript v0.0.0
 )
 
-require (
-	golang.org/x/exp v0.0.0-20240409090435-93d18d7e34b8 // indirect
-	seehuhn.de/go/geom v0.0.0-20250114140758-af83eac7b27c // indirect
-)
+require golang.org/x/exp v0.0.0-20240409090435-93d18d7e34b8 // indirect
 
 replace seehuhn.de/go/postscript => /repo
